@@ -621,6 +621,10 @@ class Ledger(metaclass=LedgerRegistry):
                 merkle = await self.network.retriable_call(self.network.get_merkle, tx.id, remote_height)
             if 'merkle' not in merkle:
                 return
+            if not 0 <= merkle['pos'] < (1 << len(merkle['merkle'])):
+                # the branch cannot address this position: not a proof for any transaction of a block
+                tx.is_verified = False
+                return tx
             merkle_root = self.get_root_of_merkle_tree(merkle['merkle'], merkle['pos'], tx.hash)
             header = await self.headers.get(remote_height)
             tx.position = merkle['pos']
